@@ -307,7 +307,9 @@ def check(ctx, rep):
 
         scenarios = []
         for hitval in (True, False):
-            for p in Walker(prog, ctx.resolver, call_value=_lc(TRUTHY if hitval else FALSY)).run(dp, dirbase):
+            for p in Walker(prog, ctx.resolver, call_value=_lc(TRUTHY if hitval else FALSY),
+                            inline=lambda fn, t, d: d < 2 and t.bound_cls is not None and fn.name not in (
+                                "loadcache", "savecache", "prep_initfiles", "prep_entries", "prep_entriesappend", "getselector", "getentry")).run(dp, dirbase):
                 consulted = any(e.kind == "call" and norm(e.node) == "self.loadcache()" for e in p.events)
                 scenarios.append((p, hitval if consulted else None))
         for p, hit in scenarios:
